@@ -112,16 +112,18 @@ func (x *c15) invariants(when string) {
 	if maybe {
 		return
 	}
-	for _, r := range w.Gen.Resources() {
+	resources := w.Gen.Resources() // in the order they were handed out
+	for i, r := range resources {
 		if r.Kind == "conn" {
 			continue
 		}
 		a, alive := liveRelays[r.Addr]
 		ownerAlive := alive && ((r.Kind == "listener") == a.TCP)
-		// an older resource with the same address as a live allocation (port reuse) is dead
+		// an older resource with the same address as a live allocation (port reuse, or the
+		// throw-away probe socket of an EVEN-PORT request handed out in the same instant) is dead
 		if ownerAlive {
-			for _, r2 := range w.Gen.Resources() {
-				if r2 != r && r2.Addr == r.Addr && r2.Kind == r.Kind && r2.At.After(r.At) {
+			for _, r2 := range resources[i+1:] {
+				if r2.Addr == r.Addr && r2.Kind == r.Kind {
 					ownerAlive = false
 				}
 			}
